@@ -20,9 +20,9 @@ def judgeEndpoint (who : String) (cfg : Cfg) (delivered sent : List UInt8) (extr
   let st := run cfg init delivered
   match st.phase with
   | .done =>
-    let wseq := sent.foldl (wstep st.strict) 0 + extraWrites
+    let wseq := (sent.foldl (wstep st.strict) 0 + UInt32.ofNat extraWrites).toNat
     if status != "ok" then some s!"{who}: model completes, impl {status}"
-    else if rs != st.seq then some s!"{who}: reader seqNum {rs}, model {st.seq}"
+    else if rs != st.seq.toNat then some s!"{who}: reader seqNum {rs}, model {st.seq}"
     else if ws != wseq then some s!"{who}: writer seqNum {ws}, model {wseq}"
     else if (strictFlag == "1") != st.strict then some s!"{who}: strictMode {strictFlag}, model {st.strict}"
     else none
@@ -30,6 +30,24 @@ def judgeEndpoint (who : String) (cfg : Cfg) (delivered sent : List UInt8) (extr
     if status == "err" then none else some s!"{who}: model fails, impl {status}"
   | _ =>
     if status == "err" || status == "stall" then none else some s!"{who}: model still waiting, impl {status}"
+
+/-- re-key runs: the four counters sampled right after each re-key (`lc.ls.crs.cws.srs.sws`, lc / ls = number of
+    packets the client / server had sent by then) against the model run over the corresponding prefixes -/
+def judgeSamples (m : String) (sc ss : List UInt8) (samples : String) : Option String :=
+  if samples == "-" || samples == "" then none else
+  (samples.splitOn ",").findSome? fun smp =>
+    match (smp.splitOn ".").mapM String.toNat? with
+    | some [lc, ls, crs, cws, srs, sws] =>
+      let cst := run ⟨true, kexTypesFor m true⟩ init (ss.take ls)
+      let sst := run ⟨true, kexTypesFor m false⟩ init (sc.take lc)
+      let cw := ((sc.take lc).foldl (wstep cst.strict) 0).toNat
+      let sw := ((ss.take ls).foldl (wstep sst.strict) 0).toNat
+      if cst.phase != .done || sst.phase != .done then some s!"sample {smp}: model not in the done phase"
+      else if crs != cst.seq.toNat || srs != sst.seq.toNat then some s!"sample {smp}: reader seqNum after re-key, model {cst.seq}/{sst.seq}"
+      else if cws != cw || sws != sw then some s!"sample {smp}: writer seqNum after re-key, model {cw}/{sw}"
+      else if crs != 0 || cws != 0 || srs != 0 || sws != 0 then some s!"sample {smp}: a counter is not 0 right after NEWKEYS in strict mode"
+      else none
+    | _ => some "bad-impl"
 
 def handle (line : String) : String :=
   match line.splitOn "\t" with
@@ -61,7 +79,12 @@ def handle (line : String) : String :=
         else if i.str "s" == "-" then none else some "server result in a client-only run"
       if !(real2 || mode == "peers" || mode == "peerc") then "bad-op" else
       match cRes, sRes with
-      | none, none => "ok"
+      | none, none =>
+        if mode == "rekey" then
+          match judgeSamples m (toTypes sc) (toTypes ss) (i.str "samples") with
+          | some e => e
+          | none => "ok"
+        else "ok"
       | some e, _ => e
       | _, some e => e
     | _, _, _, _, _, _, _, _ => "bad-op"
